@@ -7,7 +7,7 @@ use crate::sp::*;
 use crate::{c01, c02, c03, c04, c05};
 use pzv_common::driver::{Ctx, Verdict, guarded, panic_sig};
 
-fn wrap<C: std::fmt::Debug>(f: fn(&C) -> Verdict) -> impl Fn(&C) -> Verdict + Sync {
+pub fn wrap<C: std::fmt::Debug>(f: fn(&C) -> Verdict) -> impl Fn(&C) -> Verdict + Sync {
     move |c| {
         let mut res: Vec<Result<Verdict, String>> = vec![];
         let mut last = ("", 0usize);
